@@ -222,5 +222,5 @@ def tasks(tier):
     q = tier == 'quick'
     tl = [('table', t_table, dict(rounds=12 if q else 40))]
     for i in range(6 if q else 14):
-        tl.append(('random_%d' % i, t_random, dict(n=700 if q else 25000)))
+        tl.append(('random_%d' % i, t_random, dict(n=1500 if q else 25000)))
     return tl
